@@ -68,6 +68,9 @@ def unknown_conds(r):
     }
 
 
+HEAVY_TIMEOUT = 600         # seconds per corpus block run alone through the implementation-level oracle (else: unchecked)
+
+
 def memo_rewriter(rng, allow_empty=True):
     shapes = ["absent", "nil", "b32", "b33", "b1", "two", "pair-first", "improper", "atom", "b32-nonnil-tail"]
     if allow_empty:
@@ -144,6 +147,7 @@ def has_extras(c):
 
 def run_trusted(rep, cases, have_model):
     G.tables(cases)
+    cases[:] = G.with_table(rep, "gen.trusted", cases)
     lines = [G.trusted_line(c) for c in cases]
     impl = G.vh(lines)
     model = G.vrun(lines) if have_model else [None] * len(lines)
@@ -153,6 +157,8 @@ def run_trusted(rep, cases, have_model):
     for c, i, m in zip(cases, lines, impl):
         pass
     for c, i, m in zip(cases, impl, model):
+        if G.unchecked(rep, "gen.trusted", G.trusted_line(c), i, m if have_model else None):
+            continue
         f = i.split(" ## ")
         ar = "ERR" if f[0] == "ERR" else "OK"
         v[(ar, "ERR" if len(f) > 1 and f[1] == "CS=ERR" else "OK")] += 1
@@ -179,7 +185,9 @@ def run_rebuild(rep, cases, have_model):
     impl = G.vh(lines)
     model = G.vrun(lines) if have_model else [None] * len(lines)
     st = rep.streams.setdefault("gen.rebuild", {"cases": 0, "disagreements": 0})
-    for c, i, m in zip(cases, impl, model):
+    for c, l, i, m in zip(cases, lines, impl, model):
+        if G.unchecked(rep, "gen.rebuild", l, i, m if have_model else None):
+            continue
         rep.nontrivial.add(("gen.rebuild", c["kind"], i.startswith("rev=ERR") or i.startswith("ERR"), i.split(".")[0][-3:]))
         if have_model:
             rep.evaluations += 1
@@ -196,6 +204,8 @@ def run_sbadd(rep, cases, have_model):
         return
     tl = ["gen.table 0 %d %s %s" % (G.BLOCK, G.hexo(c["program"]), G.refs_tok(c["refs"])) for c in sel]
     tabs = G.vh(tl)
+    ok = [k for k, t in enumerate(tabs) if not G.unchecked(rep, "gen.sbadd", tl[k], t)]
+    sel, tabs = [sel[k] for k in ok], [tabs[k] for k in ok]
     lines = []
     for c, t in zip(sel, tabs):
         tt = t.split(" ")
@@ -203,7 +213,9 @@ def run_sbadd(rep, cases, have_model):
     impl = G.vh(lines)
     model = G.vrun(lines) if have_model else [None] * len(lines)
     st = rep.streams.setdefault("gen.sbadd", {"cases": 0, "disagreements": 0})
-    for c, i, m in zip(sel, impl, model):
+    for c, l, i, m in zip(sel, lines, impl, model):
+        if G.unchecked(rep, "gen.sbadd", l, i, m if have_model else None):
+            continue
         rep.nontrivial.add(("gen.sbadd", c["kind"], i[:3] if i.startswith("ERR") else "OK", min(i.count("|"), 5)))
         if have_model:
             rep.evaluations += 1
@@ -216,10 +228,18 @@ def run_sbadd(rep, cases, have_model):
 
 def oracle(rep, cases):
     lines = ["gen.oracle09 %d %d %s %s" % (c["flags"], c["max_cost"], G.hexo(c["program"]), G.refs_tok(c["refs"])) for c in cases]
-    outs = G.vh(lines)
+    hv = [k for k, c in enumerate(cases) if c.get("heavy")]
+    lt = [k for k, c in enumerate(cases) if not c.get("heavy")]
+    outs = [None] * len(lines)
+    for k, o in zip(lt, G.vh([lines[k] for k in lt])):
+        outs[k] = o
+    for k, o in zip(hv, G.vh_heavy([lines[k] for k in hv], HEAVY_TIMEOUT)):
+        outs[k] = o
     from collections import Counter
     cl = Counter()
     for l, o in zip(lines, outs):
+        if G.unchecked(rep, "gen.oracle09", l, o):
+            continue
         cl[" ".join(o.split(" ")[:2]) + ("" if " note=" not in o else " " + o.split(" ")[-1])] += 1
         if not o.startswith("OK"):
             rep.add_failure("gen.oracle09", l, o, "OK", "a trusted helper reports something else than full validation on this accepted block "
@@ -254,6 +274,8 @@ def run_big(rep, descriptors):
     st = rep.streams.setdefault("gen.oracle09.big", {"cases": 0, "results": {}})
     for (fl, size), o in zip(descriptors, outs):
         d = "gen.oracle09big %d %d" % (fl, size)
+        if G.unchecked(rep, "gen.oracle09.big", d, o):
+            continue
         st["cases"] += 1
         st["results"][d] = o[:120]
         rep.evaluations += 1
@@ -291,7 +313,10 @@ def run(ctx):
         rep.evaluations += 1
         return
 
-    n = int(os.environ.get("VERIF_GEN_N", "0")) or (110 if tier == "quick" else 2500)
+    # thorough tier: sized to finish in < 20 min on an unloaded 16-core machine
+    if tier != "quick":
+        G.LINE_TIMEOUT = 1800
+    n = int(os.environ.get("VERIF_GEN_N", "0")) or (110 if tier == "quick" else 500)
     cases = []
     allow_empty = True          # empty first memos and spend-level extras are part of the default stream
     for k in range(n):
@@ -308,7 +333,7 @@ def run(ctx):
     shapes_all = ["absent", "nil", "b32", "b33", "b1", "two", "pair-first", "improper", "atom", "b32-nonnil-tail"] + (["empty-first"] if allow_empty else [])
     amounts = [0, 1, 127, 128, 255, 256, 32767, 32768, 2 ** 32 - 1, 2 ** 32, 2 ** 63 - 1, 2 ** 63, 2 ** 64 - 1]
     mr = rng.fork("memocases")
-    reps = 3 if tier == "quick" else 40
+    reps = 3 if tier == "quick" else 8
     for shape in shapes_all:
         for rep_i in range(reps):
             rw, used = memo_rewriter(mr.fork("%s%d" % (shape, rep_i)), allow_empty)
@@ -363,7 +388,7 @@ def run(ctx):
     # twins: spends that share two of (parent, puzzle, amount) and differ in the third and in the solution, so a
     # lookup that ignores one component of the coin returns the wrong spend
     tr = rng.fork("twins")
-    for rep_i in range(2 if tier == "quick" else 30):
+    for rep_i in range(2 if tier == "quick" else 8):
         for differ in ("parent", "amount", "puzzle"):
             pa, pb = tr.bytes(32), tr.bytes(32)
             am = tr.choice([1, 100, 2 ** 32, 2 ** 63])
@@ -385,18 +410,21 @@ def run(ctx):
     # non-canonical first bytes of the generator (quote atom with over-long length prefixes, back-reference, nested,
     # two-byte, nil), with and without SIMPLE_GENERATOR: get_coinspends*_for_trusted_block apply the byte-level
     # check_generator_quote like full validation does; the helpers' mirrors are compared on rejected inputs too
-    for c in env.head_cases(per_head=1 if tier == "quick" else 10):
+    for c in env.head_cases(per_head=1 if tier == "quick" else 3):
         c["max_cost"] = G.BLOCK
         c.pop("budget", None)
         c["memo_used"] = []
         cases.append(c)
     impl_only = []
     for name, prog, refs, big in G.file_cases(tier, env):
-        for fl in [F["DONT_VALIDATE_SIGNATURE"], env.mempool_mode | F["DONT_VALIDATE_SIGNATURE"]]:
+        # model side: only the corpus files measured small and cheap (G.QUICK_FILES); the others through the
+        # implementation-level oracle alone, one process per line with a time limit
+        cheap = name in G.QUICK_FILES and not big
+        for fl in [F["DONT_VALIDATE_SIGNATURE"]] + ([env.mempool_mode | F["DONT_VALIDATE_SIGNATURE"]] if cheap or len(prog) <= 100000 else []):
             if name in ("aa-million-messages", "aa-million-message-spends"):
                 fl |= F["COST_CONDITIONS"]
-            (impl_only if big else cases).append({"program": prog, "refs": refs, "flags": fl, "max_cost": G.BLOCK, "kind": "file",
-                                                   "tags": [("file", name)]})
+            (cases if cheap else impl_only).append({"program": prog, "refs": refs, "flags": fl, "max_cost": G.BLOCK, "kind": "file",
+                                                    "tags": [("file", name)], "heavy": not cheap})
     run_trusted(rep, cases, ctx["have_model"])
     run_rebuild(rep, cases, ctx["have_model"])
     run_sbadd(rep, cases, ctx["have_model"])
